@@ -18,6 +18,7 @@ LEMMAS = {
     "L7symver3": lambda prog, res: lemmas.lemma_L7symver3(prog, res),
     "L7symverfixed": lambda prog, res: lemmas.lemma_L7symverfixed(prog, res),
     "L7": lambda prog, res: lemmas.lemma_L7(prog, res),
+    "Lnoalloc": lambda prog, res: lemmas.lemma_noalloc(prog, res),
     "Lprefix": lambda prog, res: lemmas.lemma_Lprefix(prog, res),
     "Lprefixquick": lambda prog, res: lemmas.lemma_Lprefix(prog, res, looped=["symbol_table", "dynamic_symbol_table", "dynamic", "section_headers_with_strtab", "section_header_by_name"]),
     "Lprefix32": lambda prog, res: lemmas.lemma_Lprefix(prog, res, classes=("ELF32",), looped=["symbol_table", "dynamic_symbol_table", "dynamic", "section_headers_with_strtab", "section_header_by_name"]),
